@@ -27,6 +27,7 @@ RULE = ("(a) exhaustive: every rule-tree shape with <= N branches (N=4 quick, 5 
         "in both declaration styles (nested `with` blocks / sibling `with` blocks); "
         "(b) random thresholds and 3-7 random objects; (c) random trees in which one branch joins a second variable (l.src == x, 0-2 links per item) so that there is one row and one conclusion per link, with branches below it testing the link; branch conditions also include function predicates (with a defaulted parameter), or_ of a comparison and a predicate term, for_all over a second pool, and a nested an(...) with an or_ as the whole condition of a branch; conclusions may carry a nested query as a field value; (d) every ordered pair of branch-condition kinds on every 3-branch tree shape; (e) trees over (parent, flattened element) matches with refinement, its alternative and an alternative of the base; every tree is evaluated twice; a share of the trees is also built incrementally (evaluated, then extended by the root's alternatives in a later rule_mode(query) session, then evaluated three times). Non-trivial: at least two different conclusions are produced "
         "and at least one object gets none or an overridden one; distinct by (tree, data).")
+RULE += " Size cases (every tier): trees over 280-600 items, evaluated twice."
 LEVEL_TEXT = ("Reference-model monitoring: the real rule tree (Add conclusions, refinement(), alternative() under "
               "rule_mode(query)) is evaluated and the inferred instances are compared, as a multiset of (conclusion tag, "
               "source identity), with a 12-line recursive ripple-down interpreter. All small tree shapes are enumerated "
